@@ -2,6 +2,7 @@ package harness
 
 import (
 	"fmt"
+	"github.com/omec-project/upf-epc/zzverif/vsim"
 	"strings"
 	"time"
 
@@ -13,7 +14,7 @@ import (
 func init() {
 	Register(&PropDef{
 		ID: "C12", QuickRuns: 6400, Level: "fault_enumeration",
-		Rule:   "one run draws max_req_retries N (1,2,3,5), resp_timeout, heartbeat interval and feature flags, then runs one sub-scenario: (hb) for EVERY k in 1..N+1 a heartbeat cycle in which the peer answers exactly the k-th transmission, then a cycle with late / duplicated / wrong-sequence answers, then a cycle answered never: transmissions are counted and their spacing measured on the virtual clock at the peer; (peer-hb) heartbeats from the peer before and after association, Recovery Time Stamp stability and postponement of the agent's own heartbeat; (gate) Association Setup attempts with the datapath flapping between READY and not READY and feature bits vs configuration; (initiated) agent-initiated association towards a configured peer answering the k-th transmission or never. Non-trivial = at least one association and one dropped answer; distinct = different (sub-scenario, N, timeout, interval, k pattern, outcome). Also: peer port closed (ICMP) exactly at the first transmission of a heartbeat.",
+		Rule:   "one run draws max_req_retries N (1,2,3,5; one run in twenty 255, the top of the range of the uint8 field, with three of the k), resp_timeout, heartbeat interval and feature flags, then runs one sub-scenario: (hb) for EVERY k in 1..N+1 a heartbeat cycle in which the peer answers exactly the k-th transmission, then a cycle with late / duplicated / wrong-sequence answers, then a cycle answered never: transmissions are counted and their spacing measured on the virtual clock at the peer; (peer-hb) heartbeats from the peer before and after association, Recovery Time Stamp stability and postponement of the agent's own heartbeat; (gate) Association Setup attempts with the datapath flapping between READY and not READY and feature bits vs configuration; (initiated) agent-initiated association towards a configured peer answering the k-th transmission or never. Non-trivial = at least one association and one dropped answer; distinct = different (sub-scenario, N, timeout, interval, k pattern, outcome). Also: peer port closed (ICMP) exactly at the first transmission of a heartbeat.",
 		Assume: []string{"network latency is constant in this check (200 us each way) so that spacing can be judged to 2 ms", "'declared dead' is observed as delete commands at the simulated BESS and a fresh Association Setup being served"},
 		Real:   CommonReal, Simulated: CommonSim,
 		Scenario: scenarioC12,
@@ -30,6 +31,11 @@ func scenarioC12(r *Run) {
 	N := []uint8{1, 2, 3, 5}[r.Ch.Choose(4, "retries")]
 	tout := []time.Duration{500 * time.Millisecond, time.Second, 2 * time.Second, 3 * time.Second}[r.Ch.Choose(4, "timeout")]
 	hbi := []time.Duration{time.Second, 5 * time.Second, 10 * time.Second}[r.Ch.Choose(3, "hbi")]
+	if r.Ch.Choose(20, "max-retries") == 1 {
+		// the top of the configurable range (the field is a uint8): 256 transmissions
+		N, tout = 255, 500*time.Millisecond
+		r.Probe("max-req-retries-255")
+	}
 	r.Conf.MaxReqRetries = N
 	r.Conf.RespTimeout = tout.String()
 	r.Conf.HeartBeatInterval = hbi.String()
@@ -159,6 +165,23 @@ func c12Heartbeats(r *Run, p *Peer, N int, tout, hbi time.Duration, answerAt *in
 		}
 	}
 	r.Accepted++
+	if r.Ch.Choose(6, "seq-wrap") == 1 {
+		// long-lived association: the agent's request counter is about to pass the
+		// 24 bits a PFCP sequence number has on the wire (white-box: the counter is
+		// placed; reaching it takes 16 million heartbeats and reports). The cycles
+		// below must go on as before: an answer carries the number that was on the wire.
+		next := uint32(1<<24) - uint32(r.Ch.Choose(4, "seq-before-wrap"))
+		a := r.Agent
+		set := 0
+		vsim.Ephemeral(func() { set = a.VerifSetSeqCursor(next) })
+		if set > 0 {
+			r.Probe("sequence-counter-placed-before-24-bit-wrap")
+			r.Skel("seq-wrap")
+			r.Op("the agent's sequence counter is placed at %d (2^24 = %d)", next, 1<<24)
+		} else {
+			r.Probe("whitebox-probe-unknown:seq-cursor")
+		}
+	}
 	// cycles: every k in 1..N+1, in a drawn order
 	ks := make([]int, 0, N+1)
 	for k := 1; k <= N+1; k++ {
@@ -167,6 +190,10 @@ func c12Heartbeats(r *Run, p *Peer, N int, tout, hbi time.Duration, answerAt *in
 	for i := 0; i+1 < len(ks); i++ {
 		j := i + r.Ch.Choose(len(ks)-i, "korder")
 		ks[i], ks[j] = ks[j], ks[i]
+	}
+	if N > 16 {
+		// not every k: the last transmission, the first, and one in between
+		ks = []int{N + 1, 1, 2 + r.Ch.Choose(N-1, "k-mid")}
 	}
 	cycle := func(k int, variant string) *txRec {
 		before := len(*order)
